@@ -19,7 +19,7 @@
 (* Impl* transcribes litep2p; the property-level oracle for parsing is the *)
 (* reference implementation (libp2p-identity), bound in the trace spec.    *)
 (***************************************************************************)
-EXTENDS Naturals, FiniteSets
+EXTENDS Naturals, Sequences, FiniteSets
 
 KLens == {"0", "1_41", "42", "43", "44_100"}
 Kinds == {"blob", "ed25519"}
@@ -77,4 +77,36 @@ PropParse(real, ref, same, rt) ==
 \* bytesOk: equals the independently computed multihash; refOk: the reference derives /
 \* accepts the same id; rt as above
 PropDerive(c, got, bytesOk, refOk, rt) == got = Derive(c) /\ bytesOk /\ refOk /\ rt
+-----------------------------------------------------------------------------
+(* Position of the peer id inside a multiaddress (PeerId::try_from_multiaddr). *)
+(* Class [n, f, s, same]: n = number of /p2p components (0..2); f = what       *)
+(* follows the first one (for n = 0: what follows the base address):           *)
+(* last (nothing) | circuit (/p2p-circuit) | other (another protocol);         *)
+(* s = what follows the second one; same = both carry the same id.             *)
+(* Rule (litep2p's documented semantics): Some(p) iff the LAST component of    *)
+(* the address is /p2p/p.                                                      *)
+Follows == {"last", "circuit", "other"}
+MaddrClasses ==
+       [n : {0}, f : {"last", "circuit"}, s : {"last"}, same : {TRUE}]
+  \cup [n : {1}, f : Follows, s : {"last"}, same : {TRUE}]
+  \cup [n : {2}, f : Follows, s : Follows, same : BOOLEAN]
+After(x) == IF x = "last" THEN <<>> ELSE <<x>>
+\* the address as a sequence of component tokens
+MaddrLayout(c) ==
+  <<"base">> \o (IF c.n = 0 THEN After(c.f) ELSE <<"p2pA">> \o After(c.f))
+            \o (IF c.n = 2 THEN <<IF c.same THEN "p2pA" ELSE "p2pB">> \o After(c.s) ELSE <<>>)
+IdOf(t) == CASE t = "p2pA" -> "A" [] t = "p2pB" -> "B" [] OTHER -> "none"
+\* the rule on the layout, and the same as a table over the class
+LastComponentRule(l) == IdOf(l[Len(l)])
+ExpectedMaddr(c) ==
+  CASE c.n = 0 -> "none"
+    [] c.n = 1 -> IF c.f = "last" THEN "A" ELSE "none"
+    [] c.n = 2 -> IF c.s = "last" THEN (IF c.same THEN "A" ELSE "B") ELSE "none"
+\* negative model: the first /p2p component wherever it sits
+FirstComponentRule(l) ==
+  LET hits == {i \in 1..Len(l) : IdOf(l[i]) # "none"} IN
+  IF hits = {} THEN "none" ELSE IdOf(l[CHOOSE i \in hits : \A j \in hits : i <= j])
+\* Prop: one observed try_from_multiaddr on an address of class c (binary or textual form);
+\* appendRt: appending /p2p/<p> to that address and reading back gives p
+PropMaddr(c, got, appendRt) == got = ExpectedMaddr(c) /\ appendRt
 =============================================================================
